@@ -60,6 +60,9 @@ func (eng *Engine) verifyContract(ct *Contract) (res *FuncResult) {
 			vc.assume(sNot(sEq(args[0].S, bvConst(0, 64))))
 		}
 	}
+	for _, i := range ct.nonNilParams() {
+		vc.assume(sNot(sEq(args[i].S, bvConst(0, 64))))
+	}
 	for _, cl := range ct.Requires {
 		vc.assume(vc.evalClause(cl, args, st, nil))
 	}
@@ -93,6 +96,25 @@ func (eng *Engine) verifyContract(ct *Contract) (res *FuncResult) {
 	c.ExpectSat = true
 	res.Obls = vc.obls
 	return
+}
+
+// nonNilParams: default (sweep) contracts require their pointer parameters
+// (not the receiver, which is handled separately) to be non-nil; the
+// requirement is checked at every call site.
+func (ct *Contract) nonNilParams() []int {
+	if !ct.Auto && !ct.NonNil || ct.Fn == nil {
+		return nil
+	}
+	var res []int
+	for i, p := range ct.Fn.Params {
+		if i == 0 && ct.Fn.Signature.Recv() != nil {
+			continue
+		}
+		if _, ok := p.Type().Underlying().(*types.Pointer); ok {
+			res = append(res, i)
+		}
+	}
+	return res
 }
 
 func (eng *Engine) verifyLemma(ct *Contract, vc *VC, st *State) {
